@@ -166,6 +166,31 @@ def _parse_loop(text):
     return rows
 
 
+def _effective_default(p, callee, n_given, is_method):
+    """source of what the first omitted positional parameter of `callee` stands for: its default, or E when the default is None and
+    the body starts with `if p is None: p = E`; None when not unique / not readable"""
+    import ast as _ast
+    cands = [g for g in p.funcs.values() if g.name == callee]
+    if len(cands) != 1:
+        return None
+    g = cands[0]
+    params = list(g.params)
+    if g.cls is not None and params and is_method:
+        params = params[1:]
+    if n_given >= len(params):
+        return None
+    pn = params[n_given]
+    d = g.defaults.get(pn)
+    if d is None:
+        return None
+    if isinstance(d, _ast.Constant) and d.value is None:
+        for st in g.node.body[:4]:
+            if isinstance(st, _ast.If) and src_of(st.test) == '%s is None' % pn and len(st.body) == 1 and isinstance(st.body[0], _ast.Assign) \
+                    and src_of(st.body[0].targets[0]) == pn and not st.orelse:
+                return src_of(st.body[0].value)
+    return src_of(d)
+
+
 def _escaping_touch(want, have):
     """a local object that both outcomes return (`ret obj<k>`): one of them modifies it on this path (append / store into it) and
     the other does not touch it at all -> the returned object differs by exactly that modification"""
@@ -330,7 +355,19 @@ def _judge(want, have, closure=(), depth=0, conds=None, wconds=None):
                 import ast as _ast
                 n1 = len(_ast.parse(t1[5:], mode='eval').body.args) + len(_ast.parse(t1[5:], mode='eval').body.keywords)
                 n2 = len(_ast.parse(t2[5:], mode='eval').body.args) + len(_ast.parse(t2[5:], mode='eval').body.keywords)
-                if n1 != n2:
+                callee = h.split('.')[-1]
+                if n1 != n2 and callee in getattr(closure, 'unchanged', ()) and getattr(closure, 'p', None) is not None:
+                    # the callee is the reviewed one: the omitted argument takes its (effective) default there
+                    c1, c2 = _ast.parse(t1[5:], mode='eval').body, _ast.parse(t2[5:], mode='eval').body
+                    longer, shorter = (c1, c2) if n1 > n2 else (c2, c1)
+                    eff = _effective_default(closure.p, callee, len(shorter.args), isinstance(shorter.func, _ast.Attribute))
+                    if eff is not None and len(longer.args) > len(shorter.args) and not longer.keywords and not shorter.keywords:
+                        dropped = _ast.unparse(longer.args[len(shorter.args)])
+                        if _re.sub(r'old\d+\((.*)\)', r'\1', dropped) == eff:
+                            return 'undecided', 'an argument equal to the callee\'s default (`%s`) is passed on one side and omitted on the other' % eff
+                    elif eff is None:
+                        return 'undecided', 'the same callee is called with another number of arguments (`%s` / `%s`)' % (t2[:80], t1[:80])
+                elif n1 != n2:
                     return 'undecided', 'the same callee is called with another number of arguments (`%s` / `%s`): its signature or defaults may have changed with it' % (t2[:80], t1[:80])
             except (SyntaxError, AttributeError):
                 pass
@@ -422,6 +459,8 @@ def check_table(p, res, rname, fq, message, detectors=()):
         pass
     closure = _Closure(closure)
     closure.own = set(f.locals) | set(f.params)
+    closure.p = p
+    closure.unchanged = getattr(p, 'unchanged_defs', set())      # callees whose definition is the reviewed one: their signature and defaults did not move
     for d in detectors:
         hit = d(p, f)
         if hit is not None:
